@@ -54,6 +54,7 @@ vars == <<tree, disk, diskOk, open, mode, dirty, nextEid, retained, limbo, zl, e
 
 ROOT == 0
 FOREIGN == -2      \* stands for an entity of the right kind that lives in ANOTHER file
+UNINIT == -3       \* stands for an uninitialised (default-constructed) entity handle of the right kind
 
 ---------------------------------------------------------------------------
 (* The static shape of the data model *)
@@ -290,11 +291,13 @@ SetLinks(h, s, q) ==
       inBlock(t) == t \in Live(tree) /\ tree[t].kind = LinkTargetKind(s) /\ BlockOf(tree, t) = BlockOf(tree, h)
       call == [Call("SetLinks", args, "ok", 0) EXCEPT !.out = q] IN
   /\ open /\ Budget /\ h \in Live(tree) /\ s \in LinkSlots(tree[h].kind) /\ s \in LinkSlotsOn
-  /\ \A i \in 1..Len(q) : (q[i] = FOREIGN /\ "Foreign" \in Acts) \/ (q[i] \in Live(tree) /\ tree[q[i]].kind = LinkTargetKind(s))
-  /\ \A i, j \in 1..Len(q) : i # j => q[i] # q[j]
+  /\ \A i \in 1..Len(q) : (q[i] \in {FOREIGN, UNINIT} /\ "Foreign" \in Acts) \/ (q[i] \in Live(tree) /\ tree[q[i]].kind = LinkTargetKind(s))
+  \* the same target twice, or an uninitialised handle, in the list: the whole call fails (not offered for sources(vector), which
+  \* skips instead of failing - see above)
+  /\ (s = "esources" \/ "Foreign" \notin Acts) => ((\A i, j \in 1..Len(q) : i # j => q[i] # q[j]) /\ \A i \in 1..Len(q) : q[i] # UNINIT)
   \* replacing nothing by nothing writes nothing: not a mutating call (it returns also in a read-only session)
   /\ (~Writable => (Kids(tree, h, s) # <<>> \/ (IF s = "esources" THEN \E i \in 1..Len(q) : inBlock(q[i]) /\ tree[q[i]].par = BlockOf(tree, h) ELSE q # <<>>)))
-  /\ IF ~Writable \/ (s # "esources" /\ \E i \in 1..Len(q) : ~inBlock(q[i]))
+  /\ IF ~Writable \/ (s # "esources" /\ ((\E i \in 1..Len(q) : ~inBlock(q[i])) \/ (\E i, j \in 1..Len(q) : i # j /\ q[i] = q[j])))
        THEN /\ UNCHANGED <<tree, disk, diskOk, open, mode, dirty, nextEid, retained, limbo, zl, ended, gen, life>>
             /\ last' = [call EXCEPT !.res = "reject"] /\ hist' = Append(hist, [call EXCEPT !.res = "reject"])
        ELSE /\ tree' = [tree EXCEPT ![h].kids[s] = SelectSeq(q, LAMBDA t : inBlock(t) /\ (s = "esources" => tree[t].par = BlockOf(tree, h)))]
@@ -519,7 +522,7 @@ Next ==
   \/ "DeleteAbsent" \in Acts /\ \E p \in Live(tree), s \in Slots, c \in 1..MaxCreates, by \in {"id", "handle"} : DeleteAbsent(p, s, c, by)
   \/ "Link" \in Acts /\ \E h \in Live(tree), s \in LinkSlotsOn, t \in Live(tree) \cup {FOREIGN}, by \in {"id", "handle"} : AddLink(h, s, t, by)
   \/ "Link" \in Acts /\ \E h \in Live(tree), s \in LinkSlotsOn, t \in Live(tree), by \in {"id", "handle"} : RemoveLink(h, s, t, by)
-  \/ "Links" \in Acts /\ \E h \in Live(tree), s \in LinkSlotsOn, a \in Live(tree) \cup {FOREIGN, NONE}, b \in Live(tree) \cup {FOREIGN, NONE} :
+  \/ "Links" \in Acts /\ \E h \in Live(tree), s \in LinkSlotsOn, a \in Live(tree) \cup {FOREIGN, UNINIT, NONE}, b \in Live(tree) \cup {FOREIGN, UNINIT, NONE} :
         SetLinks(h, s, (IF a = NONE THEN <<>> ELSE <<a>>) \o (IF b = NONE THEN <<>> ELSE <<b>>))
   \/ "One" \in Acts /\ \E h \in Live(tree), s \in OneSlotsOn, t \in Live(tree) \cup {NONE, FOREIGN} : SetOne(h, s, t)
   \/ "Attr" \in Acts /\ \E e \in Live(tree), v \in {1, 2} : SetAttr(e, v)
